@@ -246,3 +246,50 @@ Example C03_checker_rejects_biased_leftover :
   c03_okb [[1]; [1]; [1]] [([[0; 1]], 1); ([[1; 0]], 1)] = false /\
   c03_okb [[1]; [1]; [1]] [([[0; 1; 2]], 1); ([[1; 0; 2]], 1)] = false.
 Proof. vm_compute. split; reflexivity. Qed.
+
+(* ================================================================== round 6: stub lists beyond unary naturals *)
+(* The enumeration above stops at a handful of stubs.  A generator that treats LONG stub lists differently
+   (shuffling blocks of 65536 stubs separately: stubs never leave their block) is invisible there.  Checker-only
+   stream: the real fast generator on >= 70000 stubs with random.shuffle scripted to a structured permutation
+   (optional reversal, then left rotation by r: elements cross every block boundary), judged over Z by
+   c03_check_big = c03_big_okb.  Soundness: acceptance means the shuffle entry point was handed exactly the
+   stub lists of the specification, once per topology and in order, the script was used up, the scripted
+   answers are permutations (a schedule in the sense of PisOk), and the observed callback calls are those of
+   the model's plan under that schedule -- so (placement_fast_nohs) the placement read off the calls is
+   shuffle_all of the ONE whole-list shuffle per topology, an arrangement of each stub list. *)
+From GV Require Import Model.GenBig Proofs.GenBigP.
+
+Theorem C03_scripted_permutation_is_a_shuffle_answer : forall sp (l : list nat),
+  perm_apply sp l = arrange (pi_of sp (length l)) l /\ is_perm (pi_of sp (length l)) (length l).
+Proof. intros sp l. split; [apply perm_apply_arrange|apply pi_of_is_perm]. Qed.
+Print Assumptions C03_scripted_permutation_is_a_shuffle_answer.
+
+Theorem C03_big_checker_sound : forall sizes jds specs shufs left calls,
+  c03_big_okb (enc sizes) (map enc jds) specs shufs left calls = true ->
+  let pis := pis_of specs (all_stubs jds) in
+  shufs = map enc (all_stubs jds) /\ length specs = ncols jds /\ left = 0%Z /\
+  PisOk jds pis /\
+  snd (plan_fast sizes jds pis) = None /\
+  calls = map enc_call (map flat_call (fst (plan_fast sizes jds pis))).
+Proof. exact c03_big_sound. Qed.
+Print Assumptions C03_big_checker_sound.
+
+Theorem C03_big_checker_placement : forall sizes jds specs shufs left calls,
+  ValidNH sizes jds ->
+  c03_big_okb (enc sizes) (map enc jds) specs shufs left calls = true ->
+  exists cs, calls = map enc_call cs /\
+    placement sizes (singleton_mis (ncols jds)) (ncols jds) cs =
+    shuffle_all (pis_of specs (all_stubs jds)) (all_stubs jds) /\
+    Forall2 (fun a s => Permutation a s) (shuffle_all (pis_of specs (all_stubs jds)) (all_stubs jds)) (all_stubs jds).
+Proof. exact c03_big_placement. Qed.
+Print Assumptions C03_big_checker_placement.
+
+(* non-vacuity: six degree-1 vertices, 2-cliques, rotation by 2 of the reversed list: accepted; the same stubs
+   shuffled in two blocks of three (each block reversed, blocks swapped) hand other lists to the shuffle entry
+   point and are rejected *)
+Example C03_big_checker_discriminates :
+  c03_big_okb [2%Z] [[1%Z];[1%Z];[1%Z];[1%Z];[1%Z];[1%Z]] [(true, 2)] [[0;1;2;3;4;5]%Z] 0
+              [(0, [3;2]%Z); (0, [1;0]%Z); (0, [5;4]%Z)] = true /\
+  c03_big_okb [2%Z] [[1%Z];[1%Z];[1%Z];[1%Z];[1%Z];[1%Z]] [(true, 2)] [[0;1;2]%Z; [3;4;5]%Z] 0
+              [(0, [5;4]%Z); (0, [3;2]%Z); (0, [1;0]%Z)] = false.
+Proof. split; vm_compute; reflexivity. Qed.
